@@ -1165,10 +1165,11 @@ bool tree<Key, Value, ValueEqual>::compare(
               return false;
             }
           } else {
-            if ((compare_left_to_right && !po.default_is_top()) ||
-                (!compare_left_to_right && po.default_is_top())) {
-              return false;
-            }
+            // key is bound only in s and t (which is not empty) binds
+            // some other key that s lacks: whatever the default value
+            // is, one of the two bindings is compared with it on the
+            // wrong side.
+            return false;
           }
           if (compare_left_to_right && po.default_is_top() && !t->is_leaf()) {
             return false;
